@@ -162,6 +162,7 @@ theorem combine_dark_length (i : Int) (f1 f2 r : Row) (h : Gen.combine_dark_fact
     (hl : f1.length = f2.length) : r.length = f1.length := by
   obtain ⟨_, _, _, rfl⟩ := combine_dark_spec i f1 f2 r h
   simp [Py.setIdx, hl]
+  split <;> simp [hl]
 
 theorem crossStep_norm (w : Nat) (db db' : DB) (ex : Bool) (i : Nat) (low up : DF)
     (hdb : ∀ df ∈ flat db, NormDF w df) (hl : NormDF w low) (hu : NormDF w up)
